@@ -42,7 +42,8 @@ def default_call(**kw):
 OMIT = object()
 
 
-def run_estimates(el, feed, call, client=None, want_client=False, shared_model_parameters=None):
+def run_estimates(el, feed, call, client=None, want_client=False, shared_model_parameters=None,
+                  inputs_from_storage=False):
     """Run ModelClient.get_estimates on deep copies of everything.  Returns (results|None, exc|None[, client]).
 
     shared_model_parameters: pass the caller's OWN dict object as model_parameters (no copy) - callers reuse one
@@ -74,8 +75,8 @@ def run_estimates(el, feed, call, client=None, want_client=False, shared_model_p
             prediction_intervals=call["prediction_intervals"],
             percent_reporting_threshold=call["percent_reporting_threshold"],
             geographic_unit_type=el.geo_type,
-            raw_config=copy.deepcopy(el.config),
-            preprocessed_data=el.pre.copy(deep=True),
+            **({} if inputs_from_storage else dict(raw_config=copy.deepcopy(el.config),
+                                                    preprocessed_data=el.pre.copy(deep=True))),
             **({} if call["model_parameters"] is OMIT else dict(model_parameters=call["model_parameters"])),
             **kwargs,
         )
@@ -91,6 +92,7 @@ def run_estimates_shared(el, feed, call, client, objs):
     """Like run_estimates but hands over the caller's OWN objects (no copies): objs = dict(feed, config, pre,
     model_parameters, estimands, prediction_intervals, aggregates, features, fixed_effects) created once by the caller
     and reused for several calls, as a long-running service would do."""
+    # (inputs_from_storage of run_estimates: config and preprocessed data are NOT handed over, the client fetches them)
     kwargs = dict(features=objs["features"], aggregates=objs["aggregates"], fixed_effects=objs["fixed_effects"],
                   pi_method=call["pi_method"], save_output=objs["save_output"],
                   handle_unreporting=call["handle_unreporting"])
